@@ -821,6 +821,16 @@ func (r *proxyStreamReceiver) recvReplicationMessages(
 				continue
 			}
 
+			// A target that is handed tasks holds the aggregated ACK back until it acknowledges them,
+			// even if it has not acknowledged anything yet: nothing below its first task is outstanding there.
+			r.ackMu.Lock()
+			for targetShardID, tasks := range tasksByTargetShard {
+				if _, known := r.ackByTarget[targetShardID]; !known {
+					r.ackByTarget[targetShardID] = tasks[0].SourceTaskId
+				}
+			}
+			r.ackMu.Unlock()
+
 			// Retry across the whole target set until all sends succeed (or shutdown)
 			sentByTarget := make(map[history.ClusterShardID]bool, len(tasksByTargetShard))
 			loggedByTarget := make(map[history.ClusterShardID]bool, len(tasksByTargetShard))
